@@ -980,38 +980,36 @@ pub fn tame_for_depth20(depth: usize, ops: &mut [Op]) {
     if depth < 16 {
         return;
     }
+    // can the leaf count get large? (a single write far to the right moves it there; appends and
+    // mark-relative positions then follow it)
+    let far = |p: &Pos| match p.kind {
+        PosKind::Uniform => p.raw >= 256,
+        PosKind::NearEnd | PosKind::CapMinus1 => true,
+        _ => false,
+    };
+    let mark_large = ops.iter().any(|o| matches!(o, Op::Set(p, _) if far(p)));
     let small = |p: &mut Pos| {
-        if !matches!(p.kind, PosKind::Zero | PosKind::Mark | PosKind::MarkMinus1 | PosKind::MarkPlus1 | PosKind::Cap | PosKind::CapPlus1 | PosKind::Max) {
+        let keep = match p.kind {
+            PosKind::Zero | PosKind::Cap | PosKind::CapPlus1 | PosKind::Max => true,
+            PosKind::Mark | PosKind::MarkMinus1 | PosKind::MarkPlus1 => !mark_large,
+            _ => false,
+        };
+        if !keep {
             *p = Pos { kind: PosKind::Uniform, raw: p.raw % 256 };
         }
     };
-    let mut mark_may_be_large = false;
     for op in ops.iter_mut() {
         match op {
             Op::SetRange(p, _) => small(p),
+            // the persistent adapter rewrites the whole span between the smallest and the largest
+            // removal index, so removals are kept close together as well
             Op::Batch(p, _, rem) => {
                 small(p);
                 for r in rem.iter_mut() {
                     small(r);
                 }
             }
-            // single writes far right move the mark there; later mark-relative ranges would be far right too
-            Op::Set(p, _) if !mark_may_be_large => {
-                if matches!(p.kind, PosKind::Uniform | PosKind::NearEnd | PosKind::CapMinus1) {
-                    mark_may_be_large = true;
-                }
-            }
             _ => {}
-        }
-        if mark_may_be_large {
-            match op {
-                Op::SetRange(p, _) | Op::Batch(p, _, _) => {
-                    if matches!(p.kind, PosKind::Mark | PosKind::MarkMinus1 | PosKind::MarkPlus1) {
-                        *p = Pos { kind: PosKind::Uniform, raw: 7 };
-                    }
-                }
-                _ => {}
-            }
         }
     }
 }
